@@ -8,7 +8,7 @@ cd /repo && git diff --quiet || { echo "/repo has uncommitted changes"; exit 2; 
 for d in /verif/seeded/${1:-}*/; do
   name=$(basename "$d")
   id=$(python3 -c "import json;print(json.load(open('$d/meta.json'))['property'])")
-  first=$(python3 -c "import json;m=json.load(open('$d/meta.json'));print(m['checks_run_against_it']['caught_by'][0])")
+  first=$(python3 -c "import json;m=json.load(open('$d/meta.json'));c=m['checks_run_against_it']['caught_by'];print(c[0] if c else m['property'])")
   [ -f /verif/regress/$first/seed-$name.json ] && continue
   git -C /repo apply "$d/patch.diff" || { echo "$name: patch does not apply"; continue; }
   out=$(cd /verif && VERIF_OUT=/tmp/seedreg ./check $first quick 2>/dev/null | grep "^VIOLATION" | head -1)
